@@ -219,18 +219,24 @@ ALLOWED_AXIOMS = set()   # the development needs none; anything printed is repor
 
 def check_obligations(prop, extra_targets=()):
     """Re-check Props/Properties_<prop>.vo.  Returns dict(obligations, discharged, failed[list], axioms[list], log)."""
-    pf = os.path.join(COQ, 'Props', 'Properties_%s.v' % prop)
-    src = open(pf).read()
-    theorems = re.findall(r'^(?:Theorem|Example)\s+(\w+)', src, re.M)
-    vo = 'Props/Properties_%s.vo' % prop
-    # force re-check of the property file itself on every run
-    try:
-        os.remove(os.path.join(COQ, vo))
-    except FileNotFoundError:
-        pass
-    ok, log = coq_make([vo] + list(extra_targets))
+    # Props/Properties_<prop>.v plus optional continuation files Props/Properties_<prop>_*.v
+    pfs = sorted(glob.glob(os.path.join(COQ, 'Props', 'Properties_%s.v' % prop)) + glob.glob(os.path.join(COQ, 'Props', 'Properties_%s_*.v' % prop)))
+    theorems = []
+    vos = []
+    for pf in pfs:
+        src = open(pf).read()
+        theorems += re.findall(r'^(?:Theorem|Example)\s+(\w+)', src, re.M)
+        vo = os.path.relpath(pf, COQ)[:-2] + '.vo'
+        vos.append(vo)
+        # force re-check of the property files themselves on every run
+        try:
+            os.remove(os.path.join(COQ, vo))
+        except FileNotFoundError:
+            pass
+    ok, log = coq_make(vos + list(extra_targets))
+    ok = ok and all(os.path.exists(os.path.join(COQ, vo)) for vo in vos)
     res = {'theorems': theorems, 'obligations': len(theorems), 'log': log, 'failed': [], 'axioms': []}
-    if ok and os.path.exists(os.path.join(COQ, vo)):
+    if ok:
         res['discharged'] = len(theorems)
     else:
         # which theorem broke?  the first error location
